@@ -201,19 +201,34 @@ func Run(r *rt.Run) error {
 	}
 
 	// ---- B: built-in functions ----
-	for _, f := range []string{"int", "float", "bool", "string", "abs", "floor", "ceil", "strLength", "strToUpper", "strToLower",
-		"isPresent", "minute", "hour", "duration", "nosuchfunc"} {
+	for _, f := range []string{"int", "float", "bool", "string", "abs", "floor", "ceil", "trunc", "strLength", "strToUpper", "strToLower",
+		"isPresent", "minute", "hour", "day", "month", "year", "weekday", "duration", "nosuchfunc"} {
 		runs, _ := longRuns(rnd, len(one))
 		x.run(kase{n: Call(f, a), entries: one, runs: runs, pol: polTyped, family: "builtin"})
 	}
 	strs := []V{Str(""), Str("a"), Str("ab"), Str("b"), Str("ba"), Str("aab"), Str("A1")}
 	ss := scopes2("a", "b", append(append([]V{}, strs...), Int(1), Missing), append(append([]V{}, strs...), Flt(2)), true)
-	for _, f := range []string{"strContains", "strHasPrefix", "strHasSuffix", "strIndex", "strLastIndex", "strTrimPrefix", "strTrimSuffix"} {
+	for _, f := range []string{"strContains", "strHasPrefix", "strHasSuffix", "strIndex", "strLastIndex", "strTrimPrefix", "strTrimSuffix",
+		"strCount", "strContainsAny", "strIndexAny", "strLastIndexAny", "strTrim", "strTrimLeft", "strTrimRight"} {
 		runs, _ := longRuns(rnd, len(ss))
 		x.run(kase{n: Call(f, a, b), entries: ss, runs: runs[:2], pol: polTyped, family: "builtin"})
 	}
 	small2 := scopes2("a", "b", domainS, domainS, true)
-	for _, f := range []string{"min", "max", "duration"} {
+	{
+		sp := scopes1("a", []V{Str(" a "), Str("a b"), Str("\ta\n"), Str("  "), Str(""), Str("a"), Int(1), Missing})
+		runs, _ := longRuns(rnd, len(sp))
+		x.run(kase{n: Call("strTrimSpace", a), entries: sp, runs: runs, pol: polTyped, family: "builtin"})
+		tt := scopes1("a", []V{Tim(0), Tim(61), Tim(1439), Tim(1440), Tim(1500), Tim(10 * 1440), Int(1), Missing})
+		for _, f := range []string{"day", "weekday", "hour", "minute"} {
+			runs, _ := longRuns(rnd, len(tt))
+			x.run(kase{n: Call(f, a), entries: tt, runs: runs[:2], pol: polTyped, family: "builtin"})
+		}
+		fl := []V{Flt(-2.5), Flt(-2), Flt(-0.5), Flt(0), Flt(0.5), Flt(2), Flt(2.5), Flt(5), Int(2), Missing}
+		ff := scopes2("a", "b", fl, fl, false)
+		runs2, _ := longRuns(rnd, len(ff))
+		x.run(kase{n: Call("mod", a, b), entries: ff, runs: runs2[:2], pol: polTyped, family: "builtin"})
+	}
+	for _, f := range []string{"min", "max", "mod", "duration"} {
 		runs, _ := longRuns(rnd, len(small2))
 		x.run(kase{n: Call(f, a, b), entries: small2, runs: runs[:2], pol: polTyped, family: "builtin"})
 	}
@@ -457,8 +472,8 @@ func (g *gen) leaf() *N {
 	}
 }
 
-var fun1 = []string{"int", "float", "bool", "string", "abs", "floor", "ceil", "strLength", "strToUpper", "isPresent", "spread", "sigma", "duration"}
-var fun2 = []string{"min", "max", "strContains", "strHasPrefix", "strIndex", "strTrimSuffix", "duration"}
+var fun1 = []string{"int", "float", "bool", "string", "abs", "floor", "ceil", "trunc", "strLength", "strToUpper", "strTrimSpace", "isPresent", "spread", "sigma", "duration"}
+var fun2 = []string{"min", "max", "mod", "strContains", "strHasPrefix", "strIndex", "strTrimSuffix", "strCount", "strTrim", "strIndexAny", "duration"}
 
 func (g *gen) node(depth int) *N {
 	if depth == 0 || g.r.Intn(6) == 0 {
